@@ -82,7 +82,10 @@ pub fn c03(cx: &mut Ctx) {
                      vec![("transfer-encoding", &b"Chunked"[..]), ("content-length", &b"5"[..])],
                      vec![("content-length", &b"5"[..]), ("transfer-encoding", &b"CHUNKED"[..]), ("host", &b"h.test"[..])],
                      vec![("transfer-encoding", &b"gzip, cHuNkEd"[..]), ("content-length", &b"3"[..])],
-                     vec![("transfer-encoding", &b" chunked "[..])]].iter().enumerate() {
+                     vec![("transfer-encoding", &b" chunked "[..])],
+                     // chunked on the second Transfer-Encoding line, beside a Content-Length
+                     vec![("transfer-encoding", &b"gzip"[..]), ("transfer-encoding", &b"chunked"[..]), ("content-length", &b"5"[..])],
+                     vec![("content-length", &b"4"[..]), ("transfer-encoding", &b"gzip"[..]), ("x-a", &b"1"[..]), ("transfer-encoding", &b"chunked"[..])]].iter().enumerate() {
         for first in [0usize, 1, 5] {
             for cap in [5usize, 6, 64] {
                 cx.case("own");
@@ -100,6 +103,16 @@ pub fn c03(cx: &mut Ctx) {
                 cx.op("proceed");
             }
         }
+    }
+    // several full chunks in one write: input beyond 20 480 bytes into outputs with room for three and four chunks
+    for (len, cap) in [(20481usize, 20496usize), (20481, 20502), (25000, 65536), (30720, 30744), (30721, 40000), (41000, 100000), (41000, 20600)] {
+        cx.case("multi");
+        if !to_send_body(cx, "POST", "HTTP/1.1", None, false) { continue; }
+        let (_, used) = bwrite(cx, 3, len, cap);
+        bwrite(cx, 3 + used, len - used.min(len), cap);
+        bwrite(cx, 0, 0, 64);
+        cx.op("canproceed");
+        cx.op("proceed");
     }
     // random sequences
     let n = if cx.thorough { 6000 } else { 600 };
@@ -124,6 +137,17 @@ pub fn c03(cx: &mut Ctx) {
                 }
             }
         }
+        bwrite(cx, 0, 0, 64);
+        cx.op("canproceed");
+        cx.op("proceed");
+    }
+    // the size ladder: input length with room to spare, output space with input to spare, both equal
+    for l in super::ladder(cx.thorough, 131072) {
+        cx.case("ladder");
+        if !to_send_body(cx, "POST", "HTTP/1.1", None, false) { continue; }
+        bwrite(cx, l, l, l + 200);
+        bwrite(cx, l + 1, 200000, l);
+        bwrite(cx, l + 2, l, l);
         bwrite(cx, 0, 0, 64);
         cx.op("canproceed");
         cx.op("proceed");
@@ -198,6 +222,51 @@ pub fn c04(cx: &mut Ctx) {
             }
         }
     }
+    // one write where input, output space and remaining length are all beyond one 10 KiB chunk
+    for (n, len, cap) in [(20000usize, 20000usize, 20000usize), (70000, 30000, 65536), (10241, 10241, 10241), (40000, 40001, 50000)] {
+        cx.case("big");
+        if !to_send_body(cx, "PUT", "HTTP/1.1", Some(n as u64), false) { continue; }
+        let (_, used) = bwrite(cx, 5, len, cap);
+        let (_, used2) = bwrite(cx, 5 + used, n - used.min(n), 100000);
+        cx.op("canproceed");
+        let _ = used2;
+        bwrite(cx, 0, 0, 8);
+        cx.op("canproceed");
+        cx.op("proceed");
+    }
+    // the Content-Length sits behind many other headers (65th, 70th, 130th field of the request)
+    for fill in [63usize, 64, 65, 70, 129] {
+        for api in 0..2 {
+            cx.case("far");
+            let mut hs: Vec<(String, Vec<u8>)> = (0..fill).map(|k| (format!("x-f{}", k), b"v".to_vec())).collect();
+            hs.push(("content-length".into(), b"6".to_vec()));
+            let hr: Vec<(&str, &[u8])> = hs.iter().map(|(k, v)| (k.as_str(), v.as_slice())).collect();
+            let args = format!("POST HTTP/1.1 http://a.test/p {}", super::hdrs(&hr));
+            if api == 0 {
+                if cx.rec.new_flow(&args) != "ok" { continue; }
+                cx.op("proceed"); cx.op("write 100000"); cx.op("proceed");
+                if cx.rec.state() != "sendBody" { continue; }
+                cx.op("chunked?");
+                bwrite(cx, 0, 7, 64);          // one more than declared: refused
+                bwrite(cx, 0, 4, 64);
+                cx.op("direct 3");
+                cx.op("direct 2");
+                cx.op("canproceed");
+                bwrite(cx, 0, 0, 8);
+                cx.op("canproceed");
+                cx.op("proceed");
+            } else {
+                if cx.rec.new_call("body", &args) != "ok" { continue; }
+                cx.op("cbwrite - 100000");
+                cx.op(&format!("cbwrite {} 64", hx(b"abcdefg")));
+                cx.op(&format!("cbwrite {} 64", hx(b"abcdef")));
+                cx.op("cfinished");
+                cx.op("cbwrite - 8");
+                cx.op("cfinished");
+                cx.op("cinto");
+            }
+        }
+    }
     // the single-call API: is_finished() / into_receive() against the same accounting
     for n in [0usize, 1, 3, 7, 70000] {
         for k in [0usize, 1, 3, 7] {
@@ -261,6 +330,32 @@ pub fn c04(cx: &mut Ctx) {
         }
         cx.op("canproceed");
         cx.op("proceed");
+    }
+    // the size ladder: a declared length of every rung, written in one call into exactly that much space, one byte
+    // short, and one byte over
+    for l in super::ladder(cx.thorough, 131072) {
+        for api in 0..2 {
+            cx.case("ladder");
+            if api == 0 {
+                if !to_send_body(cx, "PUT", "HTTP/1.1", Some(l as u64), false) { continue; }
+                bwrite(cx, 1, l + 1, l + 1);
+                let (_, u) = bwrite(cx, 1, l, l.saturating_sub(1));
+                bwrite(cx, 1 + u, l - u.min(l), l + 5);
+                cx.op("canproceed");
+                bwrite(cx, 0, 0, 8);
+                cx.op("canproceed");
+                cx.op("proceed");
+            } else if l <= 40000 {
+                if cx.rec.new_call("body", &format!("PUT HTTP/1.1 http://a.test/p {}", super::hdrs(&[("content-length", l.to_string().as_bytes())]))) != "ok" { continue; }
+                cx.op("cbwrite - 4096");
+                let data = pat(3, l);
+                cx.op(&format!("cbwrite {} {}", hx(&data), l + 1));
+                cx.op("cfinished");
+                cx.op("cbwrite - 8");
+                cx.op("cfinished");
+                cx.op("cinto");
+            }
+        }
     }
 }
 
@@ -334,6 +429,28 @@ pub fn c18(cx: &mut Ctx) {
             }
         }
     }
+    // the same n again and again on one flow, with other writes in between: a short chunk into n, a multi-chunk
+    // write, an end-of-body attempt that did not fit (the body stays open) — the advertised size still holds
+    for n in [9usize, 30, 100, 263, 264, 1000, 4104, 10300, 20600] {
+        for prelude in 0..5usize {
+            cx.case("again");
+            if !to_send_body(cx, "POST", "HTTP/1.1", None, false) { continue; }
+            match prelude {
+                0 => { bwrite(cx, 1, 10.min(n - 8), n); }
+                1 => { bwrite(cx, 1, 1, n); bwrite(cx, 2, 3, n); }
+                2 => { bwrite(cx, 0, 0, 3); cx.op("canproceed"); }
+                3 => { bwrite(cx, 0, 0, 4); bwrite(cx, 5, 2, n); bwrite(cx, 0, 0, 0); }
+                _ => { let res = cx.op(&format!("maxin {}", n)); let m: usize = res.split(' ').nth(1).unwrap_or("0").parse().unwrap_or(0); if m > 1 { bwrite(cx, 7, m - 1, n); } }
+            }
+            for _ in 0..2 {
+                let res = cx.op(&format!("maxin {}", n));
+                let m: usize = res.split(' ').nth(1).unwrap_or("0").parse().unwrap_or(0);
+                if m > 0 { bwrite(cx, n, m, n); }
+            }
+            bwrite(cx, 0, 0, 64);
+            cx.op("canproceed");
+        }
+    }
     for batch in ns.chunks(64) {
         cx.case("sized");
         if !to_send_body(cx, "POST", "HTTP/1.1", Some(u64::MAX), false) { continue; }
@@ -342,6 +459,16 @@ pub fn c18(cx: &mut Ctx) {
             let res = cx.op(&format!("maxin {}", n));
             let m: usize = res.split(' ').nth(1).unwrap_or("0").parse().unwrap_or(0);
             bwrite(cx, n, m, n);
+        }
+    }
+    // the size ladder over n, chunked and sized, on one flow each
+    for sized in [false, true] {
+        cx.case("ladder");
+        if !to_send_body(cx, "POST", "HTTP/1.1", if sized { Some(u64::MAX) } else { None }, false) { continue; }
+        for n in super::ladder(cx.thorough, 131072) {
+            let res = cx.op(&format!("maxin {}", n));
+            let m: usize = res.split(' ').nth(1).unwrap_or("0").parse().unwrap_or(0);
+            if m > 0 { bwrite(cx, n, m, n); }
         }
     }
 }
@@ -371,6 +498,40 @@ pub fn c19(cx: &mut Ctx) {
             bwrite(cx, input, input, cap);
         }
     }
+    // the zero-copy path mixed with write(): part of a sized body is reported as written directly, the rest goes
+    // through write() in a loop with a fixed buffer
+    for (total, direct) in [(100usize, 60usize), (100, 50), (100, 49), (100, 99), (10, 5), (3, 2), (70001, 35001), (70001, 1), (5000, 4999)] {
+        for cap in [1usize, 7, 64, 100000] {
+            cx.case("mixed");
+            if !to_send_body(cx, "POST", "HTTP/1.1", Some(total as u64), false) { continue; }
+            let first = if cap == 7 { 1 } else { 0 };
+            let mut off = 0;
+            if first > 0 { let (_, u) = bwrite(cx, 0, first, cap); off += u; }
+            if cx.op(&format!("direct {}", direct - first)) == "unit" { off += direct - first; }
+            cx.op("canproceed");
+            let mut calls = 0;
+            while off < total && calls <= 200 {
+                let (ok, used) = bwrite(cx, off, total - off, cap.max((total - direct) / 100));
+                if !ok || used == 0 { break; }
+                off += used;
+                calls += 1;
+            }
+            bwrite(cx, 0, 0, 8);
+            cx.op("canproceed");
+            cx.op("proceed");
+        }
+    }
+    // a chunked body whose end did not fit the output: the body is still open and takes more content
+    for room in 0..5usize {
+        cx.case("openend");
+        if !to_send_body(cx, "POST", "HTTP/1.1", None, false) { continue; }
+        bwrite(cx, 1, 4, 50);
+        bwrite(cx, 0, 0, room);
+        cx.op("canproceed");
+        bwrite(cx, 5, 12, 50);
+        bwrite(cx, 0, 0, 5);
+        cx.op("canproceed");
+    }
     // whole-body loops with a fixed buffer size (chunked and sized)
     let loops = if cx.thorough { 400 } else { 60 };
     for _ in 0..loops {
@@ -390,5 +551,15 @@ pub fn c19(cx: &mut Ctx) {
         cx.meta(&format!("loop total={} cap={} done={} calls={}", total, cap, off, calls));
         bwrite(cx, 0, 0, cap.max(5));
         cx.op("canproceed");
+    }
+    // the size ladder over the output space, with inputs just below, at and above what fits
+    for cap in super::ladder(cx.thorough, 131072) {
+        cx.case("ladder");
+        if !to_send_body(cx, "POST", "HTTP/1.1", None, false) { continue; }
+        let res = cx.op(&format!("maxin {}", cap));
+        let m: usize = res.split(' ').nth(1).unwrap_or("0").parse().unwrap_or(0);
+        for input in [1usize, m.saturating_sub(1).max(1), m.max(1), m + 1, cap + 1, 2 * cap + 7] {
+            bwrite(cx, input, input, cap);
+        }
     }
 }
